@@ -42,11 +42,11 @@ def answerWords : List String → String
     if kmerNewSafe k then
       joinWith "|" ["ok", fmtPairs (kmers k s), fmtPairs (specKmers k s), fmtNats (specKmerStarts k s)]
     else "panic:kmer-new"
-  | ["revcomp", k, x] =>
+  | ["revcomp", k, x, _] =>
     let k := k.toNat!; let x := x.toNat!
     joinWith "|" ["ok", toString (revComp k x), toString (revCompSpec k x),
       hex (numericToKmer k x), hex (decodeSpec k x), toString (enc (decodeSpec k x))]
-  | ["posmaps", k] =>
+  | ["posmaps", k, _] =>
     let k := k.toNat!
     let pm := kmerPosMaps k
     joinWith "|" ["ok", toString pm.kcount, toString (kcountFormula k), fmtNats pm.posKmer,
